@@ -160,7 +160,7 @@ def showModelDump (s : St) : String :=
     | some u =>
       let ops := semi (u.ops.map (fun (e : OpEntry) => s!"{e.cls}:{showKey e.pk}:{e.op.code}:{showBool e.processed}"))
       let vobjs := semi (u.vobjs.map (fun (x : Nat × List Int × Nat) => s!"{x.1}:{showKey x.2.1}:{x.2.2}"))
-      s!"uow {showONat u.cur} {ops} {vobjs} {u.pending.length}"
+      s!"uow {showONat u.cur} {ops} {vobjs} {u.pending.length} {showBool u.lookup}"
   let versions := semi (s.db.versions.map showTRow)
   let txs := showNats s.db.txs
   let assoc := semi (s.db.assoc.map (fun (a : ARow) => s!"{a.tbl} {showKey a.link} {a.tx} {a.op.code}"))
